@@ -569,21 +569,22 @@ class BasicContiguousVector<cntgs::Options<Option...>, Parameter...>
         if constexpr (ListTraits::IS_LEXICOGRAPHICAL_MEMCMPABLE && ListTraits::IS_FIXED_SIZE_OR_PLAIN &&
                       alignof(StorageElementType) == 1)
         {
-            if (empty())
+            // comparing the whole buffers compares element by element only when both are cut into elements of the same size
+            if (equal_fixed_sizes(other, std::make_index_sequence<ListTraits::CONTIGUOUS_FIXED_SIZE_COUNT>{}))
             {
-                return !other.empty();
+                if (empty())
+                {
+                    return !other.empty();
+                }
+                if (other.empty())
+                {
+                    return false;
+                }
+                return detail::trivial_lexicographical_compare(data_begin(), data_end(), other.data_begin(),
+                                                               other.data_end());
             }
-            if (other.empty())
-            {
-                return false;
-            }
-            return detail::trivial_lexicographical_compare(data_begin(), data_end(), other.data_begin(),
-                                                           other.data_end());
         }
-        else
-        {
-            return std::lexicographical_compare(begin(), end(), other.begin(), other.end());
-        }
+        return std::lexicographical_compare(begin(), end(), other.begin(), other.end());
     }
 
     constexpr iterator make_iterator(const const_iterator& it) noexcept { return {*this, it.index()}; }
